@@ -54,6 +54,7 @@ class ModInfo:
                 except Exception:
                     self.consts[node.targets[0].id] = V.ModuleConst(self.modname, node.targets[0].id, node.value)
         self._labels = {}
+        self._loop_ord = {}
 
     def _qualify(self, node, name):
         # all numpoly-internal objects live in one flat namespace keyed by their own name
@@ -111,9 +112,19 @@ class ModInfo:
         """Stable label for a statement: ordinal among statements of the same type in its function."""
         return self._labels.get(id(stmt), f"L{getattr(stmt, 'lineno', 0)}")
 
+    def loop_ordinal(self, node, fallback):
+        """Ordinal of a loop statement in syntactic (source) order within its function."""
+        return self._loop_ord.get(id(node), fallback)
+
     def label_function(self, fndef):
+        self._loop_ord = {}
+        k = 0
+        for n in sorted((n for n in ast.walk(fndef) if isinstance(n, (ast.For, ast.While))),
+                        key=lambda n: (n.lineno, n.col_offset)):
+            k += 1
+            self._loop_ord[id(n)] = k
         counts = {}
-        for n in ast.walk(fndef):
+        for n in sorted((n for n in ast.walk(fndef) if isinstance(n, ast.stmt)), key=lambda n: (n.lineno, n.col_offset)):
             if isinstance(n, ast.stmt):
                 t = type(n).__name__
                 counts[t] = counts.get(t, 0) + 1
